@@ -1,6 +1,5 @@
 import VibeProof.Props.C13
-#print axioms VibeProof.C13.C13_rollback_restores_partial
-#print axioms VibeProof.C13.C13_index_ddl_counterexample
+#print axioms VibeProof.C13.C13_rollback_restores
+#print axioms VibeProof.C13.C13_index_ddl_is_rolled_back
 #print axioms VibeProof.C13.C13_commit_keeps_last_state
 #print axioms VibeProof.C13.step_keeps_snapshot
-#print axioms VibeProof.C13.step_keeps_index_list
